@@ -23,13 +23,19 @@ ObsSer == /\ phase = "build" /\ E.e = "ser" /\ E.exc = ""
           /\ toks' = E.x /\ stream' = E.out /\ phase' = "parse"
           /\ UNCHANGED <<cfg, cur, depth, pos, pm>>
 
+\* diagnostic route: the octets are the REFERENCE serialisation of x (checked here), fed to the real parser
+ObsRefSer == /\ phase = "build" /\ E.e = "refser"
+             /\ E.out = Ser(E.x)
+             /\ toks' = E.x /\ stream' = E.out /\ phase' = "parse"
+             /\ UNCHANGED <<cfg, cur, depth, pos, pm>>
+
 ObsParse == /\ phase = "parse" /\ E.e = "parse" /\ E.exc = ""
             /\ Holds(toks, E.toks)
             /\ phase' = "done"
             /\ UNCHANGED <<cfg, toks, cur, depth, stream, pos, pm>>
 
 Step(A) == /\ l <= Len(T.ev) /\ A /\ l' = l + 1 /\ UNCHANGED tid
-TNext == Step(ObsSer) \/ Step(ObsParse)
+TNext == Step(ObsSer) \/ Step(ObsRefSer) \/ Step(ObsParse)
 TSpec == TInit /\ [][TNext]_<<vars, tid, l>>
 
 Progress == TLCSet(tid, IF TLCGet(tid) > l THEN TLCGet(tid) ELSE l)
